@@ -17,6 +17,31 @@ U64 = 2.0 ** -53
 U32 = 2.0 ** -24
 
 
+WL_DTYPES = ['float64', 'float64', 'float32', 'float32', 'int64', 'int32']
+OTHER_DTYPES = ['float64', 'float32', 'int64', 'int32']
+SHORT = {'float64': 'f64', 'float32': 'f32', 'int64': 'i64', 'int32': 'i32'}
+LONG = {v: k for k, v in SHORT.items()}
+
+
+def lam_value(rng, dt: str, unit: str) -> float:
+    """a wavelength in 0.01..100 angstrom expressed in `unit`, representable in dtype `dt` (integers: 1..100 resp. 1..10)"""
+    l_ang = lu(rng, 0.01, 100)
+    v = l_ang if unit == 'angstrom' else l_ang / 10
+    if dt.startswith('int'):
+        return float(max(1, round(lu(rng, 1, 100) if unit == 'angstrom' else lu(rng, 1, 10))))
+    return float(np.dtype(dt).type(v))
+
+
+def source_array(a):
+    """scipp's vector3 / linear_transform3 hold float64 only; operands whose entries are small integers are handed
+    to scipp as int64 / int32 / float32 numpy arrays (chosen deterministically from the values) so that the
+    conversion of every source dtype is exercised"""
+    a = np.asarray(a, dtype=np.float64)
+    if a.size and np.all(a == np.round(a)) and np.all(np.abs(a) < 2**20):
+        return a.astype(['int64', 'int32', 'float32'][int(np.abs(a).sum()) % 3])
+    return a
+
+
 def u_res(dt: str) -> float:
     """unit roundoff of the RESULT of Q_elements_from_wavelength: it has the float dtype of the wavelength"""
     return U32 if dt == 'float32' else U64
@@ -26,12 +51,16 @@ Q_ULPS = 16        # |Q_component error| <= Q_ULPS * u * (2 pi / lambda): forwar
 HKL_C = 32         # residual bound constant of the property's "to rounding" clause
 
 RULE = (
-    'Q: wavelengths log-uniform in 0.01..100 angstrom (float64 and float32, angstrom and nm), beams = random '
-    'directions (plus axis-aligned, nearly parallel and nearly antiparallel pairs) times lengths log-uniform in '
+    'Q: wavelengths log-uniform in 0.01..100 angstrom (float64, float32, int64 and int32 — integers 1..100 angstrom / 1..10 nm; '
+    'angstrom and nm), beams = random '
+    'directions (plus axis-aligned, nearly parallel, nearly antiparallel and integer-valued pairs handed over as int64/int32/float32 '
+    'arrays) times lengths log-uniform in '
     '0.1..1e3 m, scalar and 1-d operands; hkl: R and U uniform on SO(3) from random unit quaternions (given as '
     'rotation3 or as linear_transform3), B = O1*diag(s1,s2,s3)*O2 with s1 in 0.01..1 1/angstrom, condition number '
     's1/s3 log-uniform in 1..1e6 and s2 log-uniform between (also s2=s1 and s2=s3), exactly singular UB for the '
-    'degenerate branch; Q vectors random with norm 0.01..100 1/angstrom; split/reassemble: arrays of rank 0..3 with '
+    'degenerate branch, integer-valued B and Q handed over as int64/int32/float32 arrays; Q_vec_from_Q_elements with component '
+    'dtypes over {float64,float32,int64,int32} in any mix; vector3 / linear_transform3 themselves exist only as float64 in scipp '
+    '(counted as not evaluable in other dtypes); Q vectors random with norm 0.01..100 1/angstrom; split/reassemble: arrays of rank 0..3 with '
     'sizes 0..3, Qy/Qz with permuted dimension order, and mismatching sizes (missing/extra/renamed dimension, '
     'different length) for the DimensionError guard. call sequences: 2-4 consecutive calls of hkl_vec_from_Q_vec (same UB object with different R, same UB value in a new '
     'object, same R with different UB, same Q with both different, identical repeat, array chunk then scalars) and of '
@@ -144,7 +173,13 @@ def rand_dir(rng):
 
 
 def beam_pair(rng):
-    kind = rng.choice(['random', 'random', 'random', 'axis', 'near-parallel', 'near-antiparallel', 'perpendicular'])
+    kind = rng.choice(['random', 'random', 'random', 'axis', 'near-parallel', 'near-antiparallel', 'perpendicular', 'int-valued'])
+    if kind == 'int-valued':
+        while True:
+            a = np.array([float(rng.randint(-20, 20)) for _ in range(3)])
+            b = np.array([float(rng.randint(-20, 20)) for _ in range(3)])
+            if a.any() and b.any():
+                return kind, a, b
     a = rand_dir(rng)
     if kind == 'random':
         b = rand_dir(rng)
@@ -163,6 +198,11 @@ def beam_pair(rng):
 
 def b_matrix(rng):
     """B = O1 diag(s) O2 with prescribed singular values; returns (matrix, s1, s2, s3, kind)"""
+    if rng.random() < 0.08:
+        while True:
+            m = np.array([[float(rng.randint(-5, 5)) for _ in range(3)] for _ in range(3)])
+            if abs(np.linalg.det(m)) > 0.5:
+                return m, 'int-valued'
     cond = 10 ** rng.uniform(0, 6)
     s1 = lu(rng, 0.01, 1.0)
     s3 = s1 / cond
@@ -220,12 +260,12 @@ def impl_qel(lam_vals, lam_dtype, lam_unit, bis, bfs, scalar=False):
 
     if scalar:
         w = sc.scalar(np.dtype(lam_dtype).type(lam_vals[0]), unit=lam_unit, dtype=lam_dtype)
-        bi = sc.vector(bis[0], unit='m')
-        bf = sc.vector(bfs[0], unit='m')
+        bi = sc.vector(source_array(bis[0]), unit='m')
+        bf = sc.vector(source_array(bfs[0]), unit='m')
     else:
         w = sc.array(dims=['x'], values=np.array(lam_vals, dtype=lam_dtype), unit=lam_unit, dtype=lam_dtype)
-        bi = sc.vectors(dims=['x'], values=np.array(bis), unit='m')
-        bf = sc.vectors(dims=['x'], values=np.array(bfs), unit='m')
+        bi = sc.vectors(dims=['x'], values=source_array(np.array(bis)), unit='m')
+        bf = sc.vectors(dims=['x'], values=source_array(np.array(bfs)), unit='m')
     try:
         r = K.Q_elements_from_wavelength(wavelength=w, incident_beam=bi, scattered_beam=bf)
     except Exception as e:  # noqa: BLE001
@@ -250,7 +290,7 @@ def impl_ub(uq, u_as_rot, b):
 
     try:
         r = K.ub_matrix_from_u_and_b(u_matrix=_rot_or_matrix(uq, u_as_rot),
-                                     b_matrix=sc.spatial.linear_transform(value=b, unit='1/angstrom'))
+                                     b_matrix=sc.spatial.linear_transform(value=source_array(b), unit='1/angstrom'))
     except Exception as e:  # noqa: BLE001
         return _err(e)
     return r
@@ -261,7 +301,7 @@ def impl_hkl(q, ub_var, rq, r_as_rot):
     from scippneutron.conversion import tof as K
 
     try:
-        r = K.hkl_vec_from_Q_vec(Q_vec=sc.vector(q, unit='1/angstrom'), ub_matrix=ub_var,
+        r = K.hkl_vec_from_Q_vec(Q_vec=sc.vector(source_array(q), unit='1/angstrom'), ub_matrix=ub_var,
                                  sample_rotation=_rot_or_matrix(rq, r_as_rot))
     except Exception as e:  # noqa: BLE001
         return _err(e)
@@ -284,14 +324,26 @@ def rand_shape(rng):
     return [(d, rng.choice([0, 1, 2, 2, 3, 3])) for d in dims]
 
 
-def make_var(shape, start):
+def make_var(shape, start, dtype='float64'):
+    """small integer values (exact in every dtype of {float64, float32, int64, int32})"""
     import scipp as sc
 
     n = int(np.prod([s for _, s in shape])) if shape else 1
-    vals = (np.arange(n, dtype=np.float64) + start)
+    vals = (np.arange(n, dtype=np.float64) + start).astype(dtype)
     if not shape:
-        return sc.scalar(float(vals[0]), unit='1/angstrom')
-    return sc.array(dims=[d for d, _ in shape], values=vals.reshape([s for _, s in shape]), unit='1/angstrom')
+        return sc.scalar(vals[0], unit='1/angstrom', dtype=dtype)
+    return sc.array(dims=[d for d, _ in shape], values=vals.reshape([s for _, s in shape]), unit='1/angstrom', dtype=dtype)
+
+
+def f64(var):
+    return var.to(dtype='float64', copy=False)
+
+
+def comp_dtypes(rng):
+    """dtypes of Qx, Qy, Qz: mostly float64, otherwise any mix of the four"""
+    if rng.random() < 0.5:
+        return ['float64'] * 3
+    return [rng.choice(OTHER_DTYPES) for _ in range(3)]
 
 
 def proto_arr(var):
@@ -354,15 +406,13 @@ def correspond(ctx):
     groups = []
     lines = []
     for _ in range(ctx.n(300, 6000)):
-        dt = rng.choice(['float64', 'float64', 'float32'])
+        dt = rng.choice(WL_DTYPES)
         unit = rng.choice(['angstrom', 'angstrom', 'nm'])
         scalar = rng.random() < 0.2
         n = 1 if scalar else rng.randint(1, 40)
         lam, bis, bfs, kinds = [], [], [], []
         for _ in range(n):
-            l_ang = lu(rng, 0.01, 100)
-            v = l_ang if unit == 'angstrom' else l_ang / 10
-            lam.append(float(np.dtype(dt).type(v)))
+            lam.append(lam_value(rng, dt, unit))
             k, a, b = beam_pair(rng)
             kinds.append(k)
             bis.append(a)
@@ -371,6 +421,9 @@ def correspond(ctx):
         for l, a, b in zip(lam, bis, bfs):
             lines.append(('c08.qel32 ' if dt == 'float32' else 'c08.qel ') + ' '.join(bits(x) for x in (l, *a, *b)))
     outs = ctx.driver(lines)
+    # result dtype as coded (model): float_dtype(wavelength)
+    res_dtype = {LONG[d]: LONG[o] for d, o in zip(SHORT.values(), ctx.driver([f'c08.qdtype {d}' for d in SHORT.values()]))}
+    ctx.count('dtype-not-evaluable:vector3 and linear_transform3 exist only as float64 (integer / float32 sources are converted on construction)', 0)
     pos = 0
     for dt, unit, scalar, lam, bis, bfs, kinds in groups:
         res = impl_qel(lam, dt, unit, bis, bfs, scalar)
@@ -383,8 +436,8 @@ def correspond(ctx):
         vals, meta, _ = res
         exp_sizes = {} if scalar else {'x': len(lam)}
         # dtype as coded: computed in float64, each component narrowed by as_float_type(., wavelength)
-        if meta != [(dt, True, exp_sizes)] * 3:
-            ctx.disagree({'op': 'qel', 'dtype': dt, 'unit': unit}, meta, [(dt, True, exp_sizes)] * 3, 'dtype / unit / sizes')
+        if meta != [(res_dtype[dt], True, exp_sizes)] * 3:
+            ctx.disagree({'op': 'qel', 'dtype': dt, 'unit': unit}, meta, [(res_dtype[dt], True, exp_sizes)] * 3, 'dtype / unit / sizes')
         for l, a, b, kd, v, m in zip(lam, bis, bfs, kinds, vals, mo):
             mv_ = [unbits(t) if t != 'nan' else math.nan for t in m.split()]
             ctx.case(('qel', dt, unit, bits(l), tuple(bits(x) for x in (*a, *b))), True,
@@ -501,14 +554,16 @@ def correspond(ctx):
     specs, lines = [], []
     for _ in range(ctx.n(1500, 20000)):
         kind, sx, sy, sz = qvec_case(rng)
-        x, y, z = make_var(sx, 1.0), make_var(sy, 101.0), make_var(sz, 201.0)
+        dts = comp_dtypes(rng)
+        x, y, z = make_var(sx, 1.0, dts[0]), make_var(sy, 101.0, dts[1]), make_var(sz, 201.0, dts[2])
+        ctx.count('qvec-dtypes:' + '/'.join(SHORT[d] for d in dts))
         specs.append((kind, x, y, z))
         lines.append('c08.qvec ' + ' '.join(t for v in (x, y, z) for t in proto_arr(v)))
     outs = ctx.driver(lines)
     lines3, vecs = [], []
     for (kind, x, y, z), o in zip(specs, outs):
         ctx.count('qvec:' + kind)
-        ident = ('qvec', kind, tuple(x.sizes.items()), tuple(y.sizes.items()), tuple(z.sizes.items()))
+        ident = ('qvec', kind, tuple(x.sizes.items()), tuple(y.sizes.items()), tuple(z.sizes.items()), str(x.dtype), str(y.dtype), str(z.dtype))
         try:
             v = K.Q_vec_from_Q_elements(Qx=x, Qy=y, Qz=z)
             impl = ' '.join([canon_var(v.fields.x)[0], canon_var(v.fields.x)[1], canon_var(v.fields.y)[1], canon_var(v.fields.z)[1]])
@@ -566,13 +621,12 @@ def _oracle_q(ctx, n):
         BL = None
     rng = ctx.rng
     for _ in range(n):
-        dt = rng.choice(['float64', 'float64', 'float32'])
+        dt = rng.choice(WL_DTYPES)
         unit = rng.choice(['angstrom', 'angstrom', 'nm'])
         m = rng.randint(1, 12)
         lam, bis, bfs, kinds = [], [], [], []
         for _ in range(m):
-            l_ang = lu(rng, 0.01, 100)
-            lam.append(float(np.dtype(dt).type(l_ang if unit == 'angstrom' else l_ang / 10)))
+            lam.append(lam_value(rng, dt, unit))
             kd, a, b = beam_pair(rng)
             kinds.append(kd)
             bis.append(a)
@@ -757,9 +811,10 @@ def _oracle_split(ctx, n):
     rng = ctx.rng
     for _ in range(n):
         kind, sx, sy, sz = qvec_case(rng)
-        x, y, z = make_var(sx, 1.0), make_var(sy, 101.0), make_var(sz, 201.0)
-        wit = {'op': 'qvec', 'kind': kind, 'x': list(map(list, sx)), 'y': list(map(list, sy)), 'z': list(map(list, sz))}
-        ctx.case(('oracle-qvec', kind, tuple(sx), tuple(sy), tuple(sz)), True)
+        dts = comp_dtypes(rng)
+        x, y, z = make_var(sx, 1.0, dts[0]), make_var(sy, 101.0, dts[1]), make_var(sz, 201.0, dts[2])
+        wit = {'op': 'qvec', 'kind': kind, 'x': list(map(list, sx)), 'y': list(map(list, sy)), 'z': list(map(list, sz)), 'dtypes': dts}
+        ctx.case(('oracle-qvec', kind, tuple(sx), tuple(sy), tuple(sz), tuple(dts)), True)
         ctx.count('oracle-qvec:' + kind)
         same = dict(sx) == dict(sy) == dict(sz)
         try:
@@ -774,9 +829,10 @@ def _oracle_split(ctx, n):
         if not same:
             ctx.violation('C08:guard', f'no DimensionError although the sizes differ; result sizes {dict(v.sizes)}', wit)
             continue
-        ok = (v.dims == x.dims and sc.identical(v.fields.x, x)
-              and sc.identical(v.fields.y, y.transpose(x.dims) if x.dims else y)
-              and sc.identical(v.fields.z, z.transpose(x.dims) if x.dims else z))
+        # vector3 holds float64: the components come back as the (exactly converted) float64 values
+        ok = (v.dims == x.dims and str(v.dtype) == 'vector3' and sc.identical(v.fields.x, f64(x))
+              and sc.identical(v.fields.y, f64(y.transpose(x.dims) if x.dims else y))
+              and sc.identical(v.fields.z, f64(z.transpose(x.dims) if x.dims else z)))
         if ok:
             el = K.hkl_elements_from_hkl_vec(hkl_vec=v)
             ok = sc.identical(el['h'], v.fields.x) and sc.identical(el['k'], v.fields.y) and sc.identical(el['l'], v.fields.z)
@@ -1157,7 +1213,8 @@ def replay(ctx, payload):
             print(j[0], '-', j[1])
         return bool(j) or bool(bad)
     if op == 'qvec':
-        x, y, z = (make_var([tuple(p) for p in w[k]], s) for k, s in (('x', 1.0), ('y', 101.0), ('z', 201.0)))
+        dts = w.get('dtypes', ['float64'] * 3)
+        x, y, z = (make_var([tuple(p) for p in w[k]], s, d) for (k, s), d in zip((('x', 1.0), ('y', 101.0), ('z', 201.0)), dts))
         same = dict(x.sizes) == dict(y.sizes) == dict(z.sizes)
         try:
             v = K.Q_vec_from_Q_elements(Qx=x, Qy=y, Qz=z)
@@ -1168,8 +1225,8 @@ def replay(ctx, payload):
         if not same:
             return True
         el = K.hkl_elements_from_hkl_vec(hkl_vec=v)
-        return not (sc.identical(el['h'], x) and sc.identical(el['k'], y.transpose(x.dims) if x.dims else y)
-                    and sc.identical(el['l'], z.transpose(x.dims) if x.dims else z))
+        return not (sc.identical(el['h'], f64(x)) and sc.identical(el['k'], f64(y.transpose(x.dims) if x.dims else y))
+                    and sc.identical(el['l'], f64(z.transpose(x.dims) if x.dims else z)))
     print('no specific replay for', key, '- re-running the oracle search')
     sub = type(ctx)(ctx.prop, 'quick', payload.get('seed', 0), ctx.repo)
     oracle(sub, False)
